@@ -190,6 +190,13 @@ class StepOps:
             if el is None:
                 return UNKNOWN
             return self._new(env, el) if last == "list" else ("SEQ", tuple(el))
+        if last == "cast" and len(args) == 2 and self._resolved_kind(node.func) in ("stdlib", "builtin"):
+            return args[1]  # typing.cast is the identity at run time
+        if last in ("any", "all") and len(args) == 1:
+            el = self._elements(args[0], env)
+            if el is not None and all(isinstance(x, bool) for x in el):
+                return any(el) if last == "any" else all(el)
+            return UNKNOWN
         if last == "reversed" and len(args) == 1:
             el = self._elements(args[0], env)
             return ("SEQ", tuple(reversed(el))) if el is not None else UNKNOWN
@@ -245,10 +252,19 @@ class StepOps:
                     keep = keep and t
                 if keep:
                     out.append(ev.eval(e.elt, env2))
-                env["@lists"] = env2.get("@lists", env.get("@lists", {}))
+                for k_ in env2:
+                    if k_.startswith("@"):
+                        env[k_] = env2[k_]  # (objects created while evaluating the element live on)
             if isinstance(e, ast.SetComp):
                 return ("SET", tuple(out))
             return self._new(env, out) if isinstance(e, ast.ListComp) else ("SEQ", tuple(out))
+        if isinstance(e, ast.Subscript) and isinstance(e.slice, ast.Slice):
+            el = self._elements(ev.eval(e.value, env), env)
+            bounds = [ev.eval(x, env) if x is not None else None for x in (e.slice.lower, e.slice.upper, e.slice.step)]
+            if el is not None and all(b is None or (isinstance(b, int) and not isinstance(b, bool)) for b in bounds):
+                part = el[slice(*bounds)]
+                return self._new(env, part) if self._is_list(ev.eval(e.value, env)) else ("SEQ", tuple(part))
+            return UNKNOWN
         if isinstance(e, ast.Subscript):
             base = ev.eval(e.value, env)
             el = self._elements(base, env)
@@ -363,6 +379,21 @@ class StepOps:
             v = self.resolve(ev.eval(node.info.get("value"), env), env)
             self._trace(env, "yield", v)
             return
+        if node.kind == "del":
+            targets = node.info.get("targets") or (node.ast.targets if isinstance(node.ast, ast.Delete) else [])
+            for t in targets:
+                if isinstance(t, ast.Subscript):
+                    base = ev.eval(t.value, env)
+                    idx = ev.eval(t.slice, env)
+                    if self._is_list(base):
+                        items = list(self._get(env, base))
+                        if isinstance(idx, int) and not isinstance(idx, bool) and -len(items) <= idx < len(items):
+                            del items[idx]
+                            self._set(env, base, items)
+                        else:
+                            self._set(env, base, [UNKNOWN for _ in items])
+                            env["@undecided"] = True
+            return
         if node.kind == "nop":
             if node.info.get("note") == "comp-start":
                 comp = dict(env.get("@comp", {}))
@@ -382,7 +413,14 @@ class StepOps:
         f = call.func
         last = self._resolved(f)
         result: Any = "@none"
-        if last == "next" and call.args and not call.keywords and self._resolved_kind(f) in ("builtin", "stdlib"):
+        if last == "next" and call.args and not call.keywords and self._resolved_kind(f) in ("builtin", "stdlib") \
+                and isinstance(call.args[0], ast.GeneratorExp):
+            # ``next(<generator expression>, default)``: the first element it would produce
+            seq = ev.eval(call.args[0], env)
+            el = self._elements(seq, env) if isinstance(seq, tuple) and seq[:1] == ("SEQ",) else None
+            if el is not None:
+                result = el[0] if el else (ev.eval(call.args[1], env) if len(call.args) == 2 else ("@raise", "StopIteration"))
+        elif last == "next" and call.args and not call.keywords and self._resolved_kind(f) in ("builtin", "stdlib"):
             it = ev.eval(call.args[0], env)
             if self._is_iter(it):
                 result = self._pull(it, env)
